@@ -3,6 +3,8 @@
 //	hist   a history of Sync / request-arrives / request-finishes ops over 1-2 clusters, run on the real
 //	       flowcontrols.NewUpstreamLimiter (Sync, GetOrDefault(name).TryAcquire/Release) and on the Lean model
 //	       KG.Model.LocalLimiter; judged by KG.Spec.LocalLimiter.judge (and its Go twin) on the real answers.
+//	cinfo  the same histories through a real ClusterInfo: Sync (schemas, dispatch policies, feature gate => limiter
+//	       mode switch) and MatchAttributes(...).FlowControl() per request; translated to hist ops and judged alike.
 //	sched  a schedule (thread ids / resizes) replayed on the real flowcontrol.NewFlowControl limiter whose
 //	       dependency file is swapped for an instrumented copy (a cooperative scheduler blocks each goroutine
 //	       before every atomic operation) and on the Lean small-step model KG.Model.MaxInflight; shared state,
@@ -49,6 +51,10 @@ func runAny(c *rig.Ctx, raw json.RawMessage, record bool) bool {
 		var s SchedCase
 		must(json.Unmarshal(raw, &s))
 		return runSched(c, s, record)
+	case "cinfo":
+		var s CICase
+		must(json.Unmarshal(raw, &s))
+		return runCI(c, s, record)
 	case "fsched":
 		var s FSchedCase
 		must(json.Unmarshal(raw, &s))
@@ -109,6 +115,7 @@ func main() {
 	silenceKlog()
 	rig.Main("C05", func(c *rig.Ctx) {
 		c.SetRule("hist: history of 6-45 ops (Sync with 0-3 schemas of kinds MaxInflight(0-4, rarely -1/large)/TokenBucket/Exempt/empty/global variants, request arrives for (cluster, name), request finishes) over 2 clusters x 3 names (half of the histories: look-alike names - case variants, prefixes, spaces, the default name, empty-looking names - configured side by side) on the real NewUpstreamLimiter, local and remote-without-clientset mode; distinct = distinct canonical op list; non-trivial = a max-in-flight schema refused or was reconfigured (resize / type change / delete / re-add) while requests admitted under it were unfinished. " +
+			"cinfo: the same histories driven through a real ClusterInfo (Sync with schemas + dispatch policies + GlobalRateLimiter gate = ResetLimiter + Sync; arrivals through MatchAttributes(..).FlowControl() under policies whose flowControlSchemaName is empty / names a schema - often one literally named system-default - / names a missing schema). " +
 			"sched: schedule of 8-70 events over 2-4 threads and resizes replayed step by step on the real instrumented counter; non-trivial = at least one preemption inside a call. " +
 			"fsched: schedule of 10-80 events over 2-4 request loops (lookup, TryAcquire, Release) and Syncs (resize, type change, delete, re-add) replayed step by step through the whole stack; non-trivial = at least two Syncs. " +
 			"stress: real goroutines on the real limiter (bare and through the whole stack with concurrent Syncs). serve: one request through the real dispatcher with a scripted way out.")
@@ -133,6 +140,7 @@ func main() {
 			runAny(c, env.Case, true)
 		}
 		genServe(c)
+		genCI(c)
 		genHist(c)
 		genSched(c)
 		genFSched(c)
